@@ -1185,16 +1185,27 @@ func (s *levelsController) fillTablesL0ToL0(cd *compactDef) bool {
 	top := cd.thisLevel.tables
 	var out []*table.Table
 	now := time.Now()
-	for _, t := range top {
+	// L0 tables overlap and are ordered by age. The merged output takes the place of its inputs
+	// (see levelHandler.replaceTables), which is only correct if the inputs are adjacent in that
+	// order. So, pick a run of adjacent tables: a table we have to leave out ends the run.
+	skip := func(t *table.Table) bool {
 		if t.Size() >= 2*cd.t.fileSz[0] {
 			// This file is already big, don't include it.
-			continue
+			return true
 		}
 		if now.Sub(t.CreatedAt) < 10*time.Second {
 			// Just created it 10s ago. Don't pick for compaction.
-			continue
+			return true
 		}
-		if _, beingCompacted := s.cstatus.tables[t.ID()]; beingCompacted {
+		_, beingCompacted := s.cstatus.tables[t.ID()]
+		return beingCompacted
+	}
+	for _, t := range top {
+		if skip(t) {
+			if len(out) >= 4 {
+				break
+			}
+			out = out[:0]
 			continue
 		}
 		out = append(out, t)
@@ -1509,7 +1520,13 @@ func (s *levelsController) runCompactDef(id, l int, cd compactDef) (err error) {
 
 	// See comment earlier in this function about the ordering of these ops, and the order in which
 	// we access levels when reading.
-	if err := nextLevel.replaceTables(cd.bot, newTables); err != nil {
+	if thisLevel.level == 0 && nextLevel.level == 0 {
+		// L0->L0: put the output where the inputs were, keeping the age order of L0.
+		if err := nextLevel.replaceTables(cd.top, newTables); err != nil {
+			return err
+		}
+		cd.top = nil
+	} else if err := nextLevel.replaceTables(cd.bot, newTables); err != nil {
 		return err
 	}
 	y.VerifPoint("compact.replaced")
